@@ -237,9 +237,16 @@ fn compare_obs(t: &mut Tally, case: &Value, board: &Board, exp: &Value, moved: b
         t.mismatch("C10", "fresh-len", case, json!(want.len()), json!([obs["len"], obs["empty"]]));
     }
     // C03
-    for k in ["chk", "st", "cks"] {
+    for k in ["chk", "st"] {
         if obs[k] != exp[k] {
             t.mismatch("C03", k, case, exp[k].clone(), obs[k].clone());
+        }
+    }
+    // the set of checking pieces is internal state (hook): disagreement with the model is drift
+    if obs["cks"] != exp["cks"] {
+        t.inc("drift_checkers");
+        if t.counts["drift_checkers"] <= 3 {
+            out_line("DRIFT", &json!({"kind": "checkers", "case": case, "exp": exp["cks"], "got": obs["cks"]}));
         }
     }
     // C04
